@@ -228,10 +228,15 @@ func TestEnumListen(t *testing.T) {
 
 func genRandom(t *rapid.T) Case {
 	var c Case
-	c.BufSize = uint32(rapid.SampledFrom([]int{0, 0, 3, 4, 8, 64}).Draw(t, "bufSize"))
+	c.BufSize = uint32(rapid.SampledFrom([]int{0, 0, 1, 2, 3, 4, 8, 64}).Draw(t, "bufSize"))
 	buf := int(c.BufSize)
 	if buf == 0 {
 		buf = 1024
+	}
+	if rapid.IntRange(0, 60).Draw(t, "hugeBuffer?") == 0 {
+		// a very large configured buffer: sysex messages far above the default size must arrive
+		c.BufSize = rapid.SampledFrom([]uint32{1<<20 + 7, 1<<24 + 9, 1 << 25}).Draw(t, "hugeBufSize")
+		buf = rapid.SampledFrom([]int{1100, 2000, 70000}).Draw(t, "sysexLenUnderHugeBuffer")
 	}
 	var stream []byte
 	nseg := rapid.IntRange(1, 30).Draw(t, "nSegments")
@@ -292,10 +297,10 @@ func genRandom(t *rapid.T) Case {
 func wellFormed(t *rapid.T, buf int) []byte {
 	st := rapid.OneOf(rapid.ByteRange(0x80, 0xEF), rapid.SampledFrom([]byte{0xF1, 0xF2, 0xF3, 0xF6, 0xF8, 0xFA, 0xFE, 0xF0})).Draw(t, "wfStatus")
 	if st == 0xF0 {
-		n := rapid.IntRange(0, min(buf-2, 12)).Draw(t, "wfSyx")
 		if buf < 2 {
 			return []byte{0xF6}
 		}
+		n := rapid.IntRange(0, min(buf-2, 12)).Draw(t, "wfSyx")
 		m := append([]byte{0xF0}, rapid.SliceOfN(rapid.ByteRange(0, 127), n, n).Draw(t, "wfSyxData")...)
 		return append(m, 0xF7)
 	}
